@@ -46,6 +46,22 @@ def add_tag_lookalikes(rng, files):
     return out
 
 
+def add_tag_case_twins(rng, files):
+    """tags that differ only by letter case are different tags: two pages whose title lines carry `+CaseTag @HomeOffice` and
+    `+casetag @homeoffice`, inherited by all their notes"""
+    names = sorted(files)
+    if len(names) < 2 or rng.random() < 0.4:
+        return files
+    out = dict(files)
+    a, b = rng.sample(names, 2)
+    for rel, words in ((a, "+CaseTag @HomeOffice #Area51x %Bob"), (b, "+casetag @homeoffice #area51x %bob")):
+        ls = out[rel].split("\n")
+        if ls and ls[0].startswith("# "):
+            ls[0] += " " + words
+        out[rel] = "\n".join(ls)
+    return out
+
+
 def add_case_twins(rng, files):
     """two notes whose ZIDs differ only by letter case (`240510#0B` / `240510#0b`: the allocator hands out both on one day),
     the twin placed on another page (or earlier on the same page) so that it is indexed first"""
@@ -191,6 +207,14 @@ def check_move(ctx, res, zdir, cfg, files, rows, row, variant, marker, model_req
         if not set(row[k]) <= set(moved[k]):
             res.failures.append(C.Failure(f"moved note lost inherited {k}: {row[k]} -> {moved[k]}", {**case, "kind": "metadata"}))
             return
+    # ... and measured against the note as it is WRITTEN in the source page (compiled here, not read from the index)
+    comp_src = ZC.impl_compile(ctx.tmp / "c10", "p.zo", before_src, TODAY)
+    truth = next((n for n in comp_src.get("notes", []) if n["zid"] == row["zid"]), None) if not comp_src.get("errors") else None
+    if truth is not None:
+        for k in ("areas", "contexts", "people", "projects"):
+            if not set(truth[k]) <= set(moved[k]):
+                res.failures.append(C.Failure(f"moved note lost {k} it had on its page: {sorted(truth[k])} -> {sorted(moved[k])}", {**case, "kind": "metadata_vs_page"}))
+                return
     mp = dict(map(tuple, moved["props"]))
     for key, v in row["props"]:
         if mp.get(key) != v:
@@ -218,7 +242,7 @@ def one_dir(ctx, res, rng, d):
     cfg = Z.write_config(ctx.tmp / "cfg.yml", template_pattern_map={r"^tmpl/(?P<name>[a-z]+)\.zo$": "made.zot"})
     model_reqs = []
     zdir.mkdir(parents=True)
-    files = add_case_twins(rng, add_extended_zids(rng, add_mentions(rng, add_tag_lookalikes(rng, G.gen_dir(rng, npages=(2, 4), with_zid=True, sections=True, date_prob=0.1, far_dates=False)))))
+    files = add_tag_case_twins(rng, add_case_twins(rng, add_extended_zids(rng, add_mentions(rng, add_tag_lookalikes(rng, G.gen_dir(rng, npages=(2, 4), with_zid=True, sections=True, date_prob=0.1, far_dates=False))))))
     # an indented blank line inside a note is part of its body (paragraph break)
     for rel in list(files):
         ls = files[rel].split("\n")
@@ -295,10 +319,10 @@ def classify(f: C.Failure, entry: dict) -> bool:
 
 
 RULE = (
-    "indexed generated directories (sections, multi-line notes, ZIDs mentioned in earlier / later notes as words and [zid] links); up to 6 (all in "
+    "indexed generated directories (sections, multi-line notes, title-line tags that differ only by case on two pages, ZIDs mentioned in earlier / later notes as words and [zid] links); up to 6 (all in "
     "thorough) notes per directory as the moved one x 7 destinations (existing page, header only, header + blank, no trailing newline, with sections, "
     "missing with / without matching template) x marker in {none, x, ~}; `zorg note move` in-process; byte-level checks of source and destination, "
-    "recompilation of both pages (same notes, requested kind, inherited tags and properties kept), NoteText.addNote / deleteNote correspondence, and the "
+    "recompilation of both pages (same notes, requested kind, inherited tags and properties kept - measured against the index row AND the note as compiled from its page), NoteText.addNote / deleteNote correspondence, and the "
     "inserted text vs Move.movedText (hidden metadata + done-marker + to_string) computed from the index row"
 )
 ASSUME = ["the index is up to date with the files (C05 / C06)", "file system atomic"]
